@@ -193,7 +193,10 @@ def _sign_from_facts(d):
         for choice in args:
             if not isinstance(choice, Rat):
                 return None
-            signs.add(_sign_from_facts(nf.substitute(d, {m: choice})))
+            d2 = nf.deep_substitute(d, {m: choice})
+            if m in nf.all_atoms(d2):
+                return None               # the minimum sits where substitution does not reach: undecided, not a loop
+            signs.add(_sign_from_facts(d2))
         return signs.pop() if len(signs) == 1 else None
     p1, p2, out_t = nf.sym("@p1", True), nf.sym("@p2", True), nf.sym("out_t", True)
     e = nf.substitute(d, {("s", "curr_t@head"): out_t - p1, ("s", "ts[-1]"): out_t + p2})
